@@ -94,6 +94,21 @@ Theorem C14_bounded_work : forall reqauth ops sched,
 Proof. intros. apply effective_bound, total_init. Qed.
 Print Assumptions C14_bounded_work.
 
+(* "one program run alone = the sequential semantics": [seq_op] (what [lin_check] replays) IS the operation's
+   program run alone on the session state, by definition.  What needs proof is that this is a semantics at
+   all: from a state in which no mutex is held - the state between operations, by
+   C14_unlocked_at_quiescence - every operation, every script, returns a result (never the "would block
+   for ever" outcome) and leaves every mutex free, so sequential runs compose.
+   GAP: [seq_op] is not formally related to Model/Session.v's [sstep] (C08): the two models number the
+   FileSys' entries differently and assume different harness reads of directories; each is tied to the
+   implementation by its own correspondence run, and the harness's linearizability oracle uses the
+   implementation itself, run one operation at a time, as the sequential reference. *)
+Theorem C14_seq : forall reqauth s h,
+  owner s = ∅ ->
+  exists r cs, snd (seq_op reqauth s h) = Some (r, cs) /\ owner (fst (seq_op reqauth s h)) = ∅.
+Proof. exact seq_op_returns. Qed.
+Print Assumptions C14_seq.
+
 (* ---- non-vacuity: the predicates reject the two defects this property was written about, the
    hypotheses of mutex/progress are satisfiable, the checker accepts and rejects ---- *)
 
